@@ -64,3 +64,23 @@ fn k_xivcrc32_xor() {
     assert!(m == r, "assign form agrees");
     kani::cover!(true, "reachable");
 }
+
+//@unit props=C12 label=B tier=quick native=1 fn=crc::XivCrc32::from(&[u8]),crc::XivCrc32::from(&str),crc::Jamcrc::checksum bound="by execution: byte strings of every length 0..=200 (two content patterns) and 8 shader key names"
+//@desc the shader-key hash is the reflected CRC-32 register with zero initial value and no final XOR of the bytes (through libz-rs-sys::crc32), for the empty string too; Jamcrc::checksum is its complement with initial value all-ones
+#[test]
+fn native_xivcrc32_vs_bitwise() {
+    let mut cases = 0u64;
+    for n in 0..=200usize { for pat in 0..2usize {
+        let data: Vec<u8> = (0..n).map(|i| if pat == 0 { (i * 37 + n) as u8 } else { b'a' + (i % 26) as u8 }).collect();
+        assert_eq!(XivCrc32::from(&data[..]).crc, spec_crc32_raw(0, &data), "shader-key hash of {n} bytes (pattern {pat})");
+        assert_eq!(XivCrc32::from(&data[..]).len, n);
+        assert_eq!(Jamcrc::new().checksum(&data), spec_crc32_raw(0xFFFF_FFFF, &data), "JAMCRC of {n} bytes");
+        cases += 1;
+    } }
+    for name in ["", "PASS_0", "DecodeDepthBuffer", "TransformViewSkin", "GetAmbientLight_SH", "g_SamplerNormal", "a", "日本語"] {
+        assert_eq!(XivCrc32::from(name).crc, spec_crc32_raw(0, name.as_bytes()), "shader-key hash of {name:?}");
+        cases += 1;
+    }
+    assert_eq!(XivCrc32::from("PASS_0").crc, 0xC5A5389C);
+    println!("NATIVE native_xivcrc32_vs_bitwise cases={cases}");
+}
